@@ -27,7 +27,7 @@ Then convince yourself it is behaviour-preserving: write `{wt}/equiv_{pid}.py`, 
 ORIGINAL class (import it from /repo via importlib with a different module name, or from `git show HEAD:<path>` saved to a temp
 file) and your refactored class, drives both with the same few thousand random input cycles (Amaranth simulator) and compares
 all outputs every cycle; it must print PASS. Also run the 93 tests. Do not use `git stash`. Do not commit. Leave the change as
-an uncommitted diff. Reply with: git diff --stat, a two-line description of what you refactored, the equivalence test result,
+an uncommitted diff. Reply (under 150 words) with: git diff --stat, a two-line description of what you refactored, the equivalence test result,
 and the test-suite summary line.
 """
 out = pathlib.Path(f"/tmp/refac_prompt_{pid}_{k}.txt"); out.write_text(text); print(out)
